@@ -127,10 +127,9 @@ fn shell_matches(exp: &Value, obs: &Value) -> bool {
         if x["a"] != y["a"] {
             return false;
         }
-        // exit status: 0 for every report; POSIX only says > 0 at the end
-        let st = y["st"].as_i64().unwrap_or(-1);
-        let ok = if n + 2 == e.len() { st > 0 } else { st == 0 };
-        if !ok {
+        // inside the loop body `$?` is the (zero) status of the getopts call; that the
+        // loop ended shows the non-zero status at the end of the options
+        if n + 2 < e.len() && y["st"].as_i64() != Some(0) {
             return false;
         }
     }
